@@ -1447,6 +1447,21 @@ def index_flags(tree, items):
     return f
 
 
+def adv_is_before(tree, items):
+    """the single advanced item ends before the (top-level) stack dim and no other advanced item exists"""
+    sd = tree[1]
+    cursor = 0
+    for it in items:
+        if it[0] == "none":
+            continue
+        m = len(it[1]) if it[0] == "mask" else 1
+        if it[0] in ADV:
+            rank_ok = (it[0] != "mask" or m >= 1) and not (it[0] == "ten" and len(it[1]) == 0)
+            return rank_ok and cursor + m <= sd
+        cursor += m
+    return False
+
+
 def stack_dims_of(tree):
     """dense dims that are the stack dim of some (nested) lazy level"""
     out = set()
@@ -1579,6 +1594,21 @@ CORPUS = [
     # D13
     {"tree": ["lazy", 0, [["td", 0, [2]], ["td", 1, [2]]]], "raw_sd": 0, "op": ["cat", 0, [2, 1, 2], "lazy"]},
     {"tree": ["lazy", 0, [["td", 0, [2]], ["td", 1, [2]]]], "raw_sd": 0, "op": ["cat", 0, [2, 2], "lazy"]},
+    # TensorDict.__getitem__ returns self for an index of full slices only, however many (found by the thorough tier)
+    {"tree": ["lazy", 0, [["lazy", 0, [["td", 0, [2]], ["td", 1, [2]], ["td", 2, [2]]]],
+                          ["lazy", 0, [["td", 3, [2]], ["td", 4, [2]], ["td", 5, [2]]]]]], "raw_sd": 0,
+     "op": ["getitem", {"tuple": True, "items": [["mask", [2], [True, True]], ["ell"]]}]},
+    # D27 / D28 / D29 / D33 / D34 / D35 witnesses
+    {"tree": ["lazy", 0, [["td", 0, [2]]]], "raw_sd": 0, "op": ["expand", [3, 2]]},
+    {"tree": ["lazy", 0, [["td", 0, []], ["td", 1, []]]], "raw_sd": 0,
+     "op": ["getitem", {"tuple": True, "items": [["mask", [2], [True, True]], ["none"]]}]},
+    {"tree": ["lazy", 1, [["td", 0, [3]], ["td", 1, [3]], ["td", 2, [3]]]], "raw_sd": 1,
+     "op": ["getitem", {"tuple": True, "items": [["none"], ["mask", [3, 3], [True, False, True, True, True, True, True, True, True]]]}]},
+    {"tree": ["lazy", 1, [["td", 0, [2, 3]]]], "raw_sd": 1, "op": ["view", [2, 3], "reshape"]},
+    {"tree": ["lazy", 0, [["td", 0, [3]], ["td", 1, [3]], ["td", 2, [3]]]], "raw_sd": 0,
+     "op": ["setitem", {"tuple": True, "items": [["ten", [2, 1], [2, 0]], ["int", 0]]}, "td"]},
+    {"tree": ["lazy", 2, [["td", 0, [1, 3]], ["td", 1, [1, 3]], ["td", 2, [1, 3]]]], "raw_sd": 2,
+     "op": ["update_at_", {"tuple": False, "items": [["none"]]}]},
 ]
 
 
@@ -1625,12 +1655,21 @@ def main(R):
               "(sizes 1..3), 18% stacks of stacks; indices: ints/slices/None/Ellipsis + at most one advanced index "
               "(list, range, int tensor rank 1..2, bool mask rank 1..2) before/on/after the stack dim")
     R.assumptions = [
-        "dense reference = TensorDict holding torch.stack of the leaves (built with torch only); member-level TensorDict "
-        "indexing/shape ops are taken to follow torch (C02/C03) -- in the model they carry the spec semantics",
-        "'or raises' of the property: an exception of the lazy op is never an oracle failure; it must be predicted by the model",
-        "cases the dense twin rejects are 'illegal argument' (no reference); only 'both raise' is compared with the model",
-        "advanced indices used for writes are duplicate-free is NOT assumed: duplicates make torch's own result order-dependent, "
-        "so write cases whose advanced index has duplicates are compared with the model only",
+        "dense reference = a TensorDict holding torch.stack of the leaves (built with torch only); the oracle is "
+        "lazy.op(args) materialised == dense.op(args): batch size of the returned object first, then keys and values; "
+        "after a write: stack content, content of the member objects the harness holds, identity of the member objects",
+        "'or raises' of the property: an exception of the lazy op (or while reading its result) is never an oracle failure; "
+        "it must however be predicted by the model (else: VIOLATION no-failing-input-found)",
+        "cases the dense twin rejects are 'illegal argument' (no reference)",
+        "member-level TensorDict indexing / shape ops carry the spec semantics of torch in the model (that is C02/C03's "
+        "subject); member-level value coercion in td[idx] = value (expand / batch-size re-interpretation) is not modelled: "
+        "those cases (counted as model:member-level-coercion-not-modelled) are left to the oracle",
+        "advanced indices used for writes are generated duplicate-free (torch's own result is order-dependent otherwise); "
+        "set_at_/update_at_ indices are generated without Ellipsis (the dense class applies them to leaves of higher rank)",
+        "theorems: full for ints/slices/None/Ellipsis at any nesting depth; one advanced index BEFORE or AFTER the stack "
+        "dim (flat stacks of plain members); "
+        "transpose outside the D26 region, unsqueeze, insert/append, cat offsets; slice-write plan. Masks on / across the "
+        "stack dim, tensors on / before it, permute/squeeze/unbind/split/repeat/expand/view, update*, stack: correspondence only",
     ]
     R.trusted = ["Spec/C08_Dense.res_shape/src_of validated against real torch indexing in this run (count in extra)",
                  "Spec/PySlice (shared, validated by C18 against CPython)"]
@@ -1671,8 +1710,24 @@ def main(R):
         R.count("op:" + k)
         R.count("verdict:" + r["verdict"])
         if k in ("getitem", "setitem", "set_at_", "update_at_"):
-            advs = [it for it in c["op"][1]["items"] if it[0] in ADV]
+            items = c["op"][1]["items"]
+            advs = [it for it in items if it[0] in ADV]
             R.count("index:" + (advs[0][0] if advs else "basic"))
+            if k == "getitem" and r["verdict"] == "ok":
+                # how many explored cases lie inside the domain of the index theorems (hypotheses evaluated on the case)
+                if not advs:
+                    R.count("theorem-domain:C08_getitem_ellipsis" if any(it[0] == "ell" for it in items) else "theorem-domain:C08_getitem_basic")
+                elif c["tree"][2][0][0] == "td" and not any(it[0] == "ell" for it in items):
+                    f = index_flags(c["tree"], items)
+                    if not f["adv_at_or_before_stack_dim"] and not f["mask_covers_stack_dim"]:
+                        R.count("theorem-domain:C08_getitem_adv_after_stack_dim")
+                    elif not f["mask_covers_stack_dim"] and not f["int_tensor_alone_on_stack_dim_0"] and \
+                            adv_is_before(c["tree"], items):
+                        R.count("theorem-domain:C08_getitem_adv_before_stack_dim")
+        if k == "transpose" and r["verdict"] == "ok" and c["tree"][2][0][0] == "td" and signature(c, r)["pattern"] == "none":
+            R.count("theorem-domain:C08_transpose_partial")
+        if k == "unsqueeze" and r["verdict"] == "ok" and c["tree"][2][0][0] == "td":
+            R.count("theorem-domain:C08_unsqueeze")
         if r["verdict"] == "fail":
             sig = signature(c, r)
             det = {kk: (vv if len(str(vv)) < 1500 else str(vv)[:1500] + "...") for kk, vv in r["detail"].items()}
